@@ -42,8 +42,8 @@ def dec(x, cm):
         return bool(x["v"])
     if t == "s":
         return "s%d" % x["v"]
-    if t == "l":
-        return [1, True, {"k.": "v"}][: x["v"] + 1]
+    if t == "l":       # lists are atoms of the codec; they differ only in the JSON type of a nested scalar
+        return [[{"k": 1}, 2], [{"k": True}, 2], [{"k": 1.0}, 2], [1, True, {"k.": "v"}]][x["v"] % 4]
     if t == "n":
         return None
     raise ValueError(t)
@@ -109,7 +109,7 @@ def rand_json(r, depth, width):
         if depth > 0 and x < 0.4:
             out[k] = rand_json(r, depth - 1, max(1, width // 2))
         elif x < 0.5:
-            out[k] = [r.randrange(3), {"a.b": 1}][: r.randrange(0, 3)]
+            out[k] = r.choice([[r.randrange(3), {"a.b": 1}][: r.randrange(0, 3)], [{"k": 1}], [{"k": True}], [{"k": 1.0}], [[0], [False]], [[0], [0]]])
         else:
             out[k] = r.choice([0, 1, True, False, None, "s", "", 1.5, -7, 2 ** 40, "1"])
     return out
@@ -123,7 +123,7 @@ def mutate(r, o, depth):
         if x < 0.2:
             del o[k]
         elif x < 0.4:
-            o[k] = r.choice([0, 1, True, False, None, {}, [], "s", {"z": 1}])
+            o[k] = r.choice([0, 1, True, False, None, {}, [], "s", {"z": 1}, [{"k": 1}], [{"k": True}], [{"k": 1.0}]])
         elif x < 0.6 and isinstance(o[k], dict):
             o[k] = mutate(r, o[k], depth - 1)
     extra = rand_json(r, max(0, depth - 1), 3)
@@ -176,7 +176,7 @@ def check(run) -> None:
         keysets = {"four": '{<<>>, <<"a">>, <<".">>, <<"a", ".", "a">>}', "bsl": '{<<"\\\\">>, <<"\\\\", ".">>, <<"a", "\\\\">>}',
                    "dots2": '{<<".", ".">>, <<"a", ".">>, <<".", "a">>}'}
     atoms = '{[t |-> "i", v |-> 1], [t |-> "b", v |-> 1]}' if q else '{[t |-> "i", v |-> 1], [t |-> "b", v |-> 1], [t |-> "s", v |-> 0]}'
-    atoms2 = '{[t |-> "s", v |-> 0], [t |-> "l", v |-> 1], [t |-> "n", v |-> 0]}' if q else '{[t |-> "i", v |-> 0], [t |-> "b", v |-> 0], [t |-> "l", v |-> 1], [t |-> "n", v |-> 0]}'
+    atoms2 = '{[t |-> "l", v |-> 0], [t |-> "l", v |-> 1], [t |-> "l", v |-> 2], [t |-> "n", v |-> 0]}' if q else '{[t |-> "i", v |-> 0], [t |-> "b", v |-> 0], [t |-> "l", v |-> 0], [t |-> "l", v |-> 1], [t |-> "l", v |-> 2], [t |-> "l", v |-> 3], [t |-> "n", v |-> 0]}'
     runs = [(kn, ks, atoms) for kn, ks in keysets.items()]
     runs.append(("atoms2", '{<<"a">>, <<"a", ".", "a">>}' if q else '{<<"a">>, <<".">>, <<"a", ".", "a">>}', atoms2))
     for kn, ks, at in runs:
